@@ -129,6 +129,15 @@ class C15(Check):
         "K16": [("dhcp", "dhcp.parse", r"self\.parsed\s*=\s*True\s*self\.options\s*=\s*util\.DirtyDict\(\)\s*if\s+self\.hlen\s*>\s*16")],
     }
 
+    # result-changing repairs of other properties (fixes/C14_D46 … D50): the model has both settings (`Var`)
+    VAR_MARKS = {
+        "D46": [("dns", "dns._read_dns_name_from_index", r"chunk_size\s*=\s*l\[index\]")],
+        "D48": [("ipv6", "ipv6.parse", r"if\s+length\s*>\s*len\(raw\)\s*-\s*offset\s*:"),
+                ("ipv6", "FixedExtensionHeader.unpack_new", r"if\s+len\(raw\)\s*-\s*offset\s*<\s*cls\.LENGTH\s*:\s*raise\s+TruncatedException")],
+        "D49": [("eap", "eap.parse", r"self\.next\s*=\s*raw\[self\.MIN_LEN:\].*self\.next\s*=\s*raw\[self\.MIN_LEN:\]")],
+        "D50": [("rip", "RIPEntry.parse", r"struct\.unpack\(\s*[\"']!HHiiiI[\"']")],
+    }
+
     def detect_fixes(self):
         src = {}
         def body(mod, qual):
@@ -141,6 +150,7 @@ class C15(Check):
             # comments and line continuations out, whitespace collapsed: the marks are matched on the statements
             lines = [re.sub(r"#.*$", "", l).rstrip("\\") for l in src[path][r[0] - 1:r[1]]]
             return re.sub(r"\s+", " ", " ".join(lines))
+        self.vars = sorted(k for k, marks in self.VAR_MARKS.items() if all(re.search(rx, body(mod, qual)) for mod, qual, rx in marks))
         return sorted((k for k, marks in self.FIX_MARKS.items() if all(re.search(rx, body(mod, qual)) for mod, qual, rx in marks)),
                       key=lambda k: int(k[1:]))
 
@@ -222,7 +232,9 @@ class C15(Check):
         if name == "rip": return {"command": o.command, "version": o.version,
                                   "entries": [[e.address_family, e.route_tag, self._ip(e.ip), self._ip(e.netmask), self._ip(e.next_hop), e.metric] for e in o.entries]}
         if name == "dns": return {"id": o.id, "qr": bool(o.qr), "opcode": o.opcode, "aa": bool(o.aa), "tc": bool(o.tc), "rd": bool(o.rd), "ra": bool(o.ra),
-                                  "z": bool(o.z), "ad": bool(o.ad), "cd": bool(o.cd), "rcode": o.rcode}
+                                  "z": bool(o.z), "ad": bool(o.ad), "cd": bool(o.cd), "rcode": o.rcode,
+                                  "questions": [[self._dn(q.name), q.qtype, q.qclass] for q in o.questions], "answers": [self._rr(r) for r in o.answers],
+                                  "authorities": [self._rr(r) for r in o.authorities], "additional": [self._rr(r) for r in o.additional]}
         if name == "ipv6": return {"v": o.v, "tc": o.tc, "flow": o.flow, "payload_length": o.payload_length, "nh": o.next_header_type, "hop_limit": o.hop_limit,
                                    "srcip": o.srcip.raw.hex(), "dstip": o.dstip.raw.hex(),
                                    "ext": [[getattr(e, "TYPE", None), e.next_header_type, self._hex(getattr(e, "raw_body", None))] for e in o.extension_headers]}
@@ -250,6 +262,19 @@ class C15(Check):
                     "sname": self._hex(o.sname), "file": self._hex(o.file), "magic": self._hex(o.magic),
                     "options": None if opts is None else [[c, self._dhcp_raw(v)] for c, v in opts.items()]}
         return {}
+
+    @staticmethod
+    def _dn(n):
+        return n.encode().hex() if isinstance(n, str) else bytes(n).hex() if isinstance(n, (bytes, bytearray)) else "!" + type(n).__name__
+
+    def _rr(self, r):
+        d = r.rddata
+        if isinstance(d, str): kind, rd = 1, d.encode().hex()
+        elif isinstance(d, (bytes, bytearray)): kind, rd = 0, bytes(d).hex()
+        elif hasattr(d, "raw"): kind, rd = 2, bytes(d.raw).hex()
+        elif hasattr(d, "toRaw"): kind, rd = 2, d.toRaw().hex()
+        else: kind, rd = -1, "!" + type(d).__name__
+        return [self._dn(r.name), r.qtype, r.qclass, r.ttl, r.rdlen, kind, rd]
 
     def _dhcp_raw(self, v):
         """the option's bytes, recovered from the object `unpackOptions` made of them (raw / IP / IP list / seconds classes)"""
@@ -456,7 +481,7 @@ class C15(Check):
         # the phase-1 model (`Cfg.core`) is asked as well for the fixed corpus and one generated case in four
         how = case.get("how", "")
         core = not how.startswith(("key", "set", "marks", "splice", "indel", "random", "nest")) or int(case["hex"][-2:] or "0", 16) % 4 == 0
-        return {"op": "parse", "cfg": "repaired", "raw": case["hex"], "core": core, "fix": self.fixes}
+        return {"op": "parse", "cfg": "repaired", "raw": case["hex"], "core": core, "fix": self.fixes, "var": self.vars}
 
     @staticmethod
     def _mview(resp):
@@ -715,7 +740,7 @@ class C15(Check):
     def extra_evidence(self):
         for fid, kf in sorted(self.soft_known.items()):
             print("KNOWN-FINDING: property=%s %s %s" % (self.id, fid, kf.get("what", "")))
-        return {"repairs_detected_in_source": self.fixes, "known_pack_print_findings_hit": sorted(self.soft_known), "distinct_failure_keys": dict(sorted(self.keys_seen.items())), "technique": self.technique, "level_text": self.level_text, "level_note": self.level_note, "design_ref": self.design_ref}
+        return {"repairs_detected_in_source": self.fixes + self.vars, "known_pack_print_findings_hit": sorted(self.soft_known), "distinct_failure_keys": dict(sorted(self.keys_seen.items())), "technique": self.technique, "level_text": self.level_text, "level_note": self.level_note, "design_ref": self.design_ref}
 
 C15.theorems = ["Pox.C15." + t for t in (
     "parse_total_partial", "parse_total_of_no_known", "nesting_defect", "progress_recorded", "repack_total_partial", "print_total_partial",
